@@ -213,7 +213,9 @@ def csum(b):
 
 
 def parse_tx(pdu):
-    """independent parse of a transmitted datagram -> dict(sseq, sid, auth, seq, netfn, cmd, ...)"""
+    """independent parse of a transmitted datagram -> dict(sseq, sid, auth, seq, netfn, cmd, ...);
+    Send Message wrappers (bridged request) are unwrapped: the fields are those of the innermost
+    request, 'wrappers' lists the Send Message requests around it (outermost first)"""
     b = bytes(pdu)
     if b[:4] != bytes([6, 0, 0xff, 7]):
         raise HarnessError('not an RMCP/IPMI datagram: ' + b.hex())
@@ -222,12 +224,36 @@ def parse_tx(pdu):
     sid = int.from_bytes(b[9:13], 'little')
     off = 13 + (16 if auth != 0 else 0)
     ln = b[off]
-    m = b[off + 1:]
-    if ln != len(m) or len(m) < 7 or sum(m[0:3]) % 256 or sum(m[3:]) % 256:
-        raise HarnessError('malformed IPMB message in datagram: ' + b.hex())
-    return {'auth': auth, 'sseq': sseq, 'sid': sid, 'raw_seq': b[5:9].hex(), 'raw_sid': b[9:13].hex(),
-            'authcode': b[13:29].hex() if auth != 0 else '', 'msg': m.hex(), 'rs_sa': m[0], 'netfn': m[1] >> 2, 'rs_lun': m[1] & 3,
-            'rq_sa': m[3], 'seq': m[4] >> 2, 'rq_lun': m[4] & 3, 'cmd': m[5], 'data': m[6:-1].hex()}
+    outer = b[off + 1:]
+    if ln != len(outer):
+        raise HarnessError('length byte of the datagram is wrong: ' + b.hex())
+
+    def fields(m):
+        if len(m) < 7 or sum(m[0:3]) % 256 or sum(m[3:]) % 256:
+            raise HarnessError('malformed IPMB message in datagram: ' + b.hex())
+        return {'rs_sa': m[0], 'netfn': m[1] >> 2, 'rs_lun': m[1] & 3, 'rq_sa': m[3], 'seq': m[4] >> 2,
+                'rq_lun': m[4] & 3, 'cmd': m[5], 'data': m[6:-1].hex()}
+    m = outer
+    f = fields(m)
+    wrappers = []
+    while f['netfn'] == 6 and f['cmd'] == 0x34:      # Send Message: [channel byte] + embedded request
+        wrappers.append(f)
+        m = m[7:-1]
+        f = fields(m)
+    f.update({'auth': auth, 'sseq': sseq, 'sid': sid, 'raw_seq': b[5:9].hex(), 'raw_sid': b[9:13].hex(),
+              'authcode': b[13:29].hex() if auth != 0 else '', 'msg': outer.hex(),
+              'wrappers': wrappers, 'depth': len(wrappers)})
+    return f
+
+
+def ipmb_response(p, data, sid=0):
+    """datagram carrying the response of the responder addressed by request fields p"""
+    h = [p['rq_sa'], ((p['netfn'] | 1) << 2) | p['rq_lun']]
+    h.append(csum(h))
+    r = [p['rs_sa'], (p['seq'] << 2) | p['rs_lun'], p['cmd']] + list(data)
+    r.append(csum(r))
+    msg = bytes(h + r)
+    return bytes([6, 0, 0xff, 7, 0]) + (0).to_bytes(4, 'little') + sid.to_bytes(4, 'little') + bytes([len(msg)]) + msg
 
 
 def bmc_answer(p, serial):
@@ -235,12 +261,7 @@ def bmc_answer(p, serial):
     (a valid Get Device ID response body whose device_id byte is the serial)"""
     assert serial < 256
     data = [0x00, serial, 0x01, 0x01, 0x02, 0x02, 0xbf, 0x3a, 0x3c, 0x00, 0x34, 0x12]
-    h = [p['rq_sa'], ((p['netfn'] | 1) << 2) | p['rq_lun']]
-    h.append(csum(h))
-    r = [p['rs_sa'], (p['seq'] << 2) | p['rs_lun'], p['cmd']] + data
-    r.append(csum(r))
-    msg = bytes(h + r)
-    return bytes([6, 0, 0xff, 7, 0]) + (0).to_bytes(4, 'little') + p['sid'].to_bytes(4, 'little') + bytes([len(msg)]) + msg
+    return ipmb_response(p, data, p['sid'])
 
 
 class ScriptedSocket:
@@ -248,8 +269,8 @@ class ScriptedSocket:
         self.s = s
         self.stale = set(stale)   # datagram numbers answered with an unrelated frame first
         self.lose = set(lose)     # datagram numbers whose reply is lost (recvfrom times out)
-        self.wire = []      # ('tx', tid, reqidx, parsed, serial) / ('rx', tid, serial)
-        self.pending = []   # (serial, datagram)
+        self.wire = []      # ('tx', tid, reqidx, parsed, serial) / ('rx', tid, serial, ..) / ('krx', tid, serial) / ASF
+        self.pending = []   # (serial, datagram, kind)
         self.nrx = 0
         self.reqidx = {}    # tid -> index of the request the thread is working on
 
@@ -266,7 +287,7 @@ class ScriptedSocket:
             self.wire.append(('atx', tid, self.reqidx.get(tid, 0), serial))
             pong = (bytes([6, 0, 0xff, 6]) + (4542).to_bytes(4, 'big') + bytes([0x40, b[9] if len(b) > 9 else 0, 0, 16])
                     + (4542).to_bytes(4, 'big') + bytes(4) + bytes([0x81, 0]) + bytes(6))
-            self.pending.append((serial, pong))
+            self.pending.append((serial, pong, 'pong'))
             self.s.did(tid, 'snd')
             return len(pdu)
         p = parse_tx(pdu)
@@ -275,11 +296,15 @@ class ScriptedSocket:
         if serial in self.lose:
             self.s.did(tid, 'snd')
             return len(pdu)
+        # a bridged request: the BMC (and every further bridge) first acknowledges the Send Message
+        # (completion code only), then the reply of the addressed responder is forwarded
+        for w in p['wrappers']:
+            self.pending.append((serial, ipmb_response(w, [0x00], p['sid']), 'ack'))
         if serial in self.stale:
             # an unrelated frame first: same netfn/cmd, a stale sequence number, another payload
             old = dict(p, seq=(1 if p['seq'] == 0 else p['seq'] - 1))
-            self.pending.append((serial + 100, bmc_answer(old, serial + 100)))
-        self.pending.append((serial, bmc_answer(p, serial)))
+            self.pending.append((serial + 100, bmc_answer(old, serial + 100), 'reply'))
+        self.pending.append((serial, bmc_answer(p, serial), 'reply'))
         self.s.did(tid, 'snd')
         return len(pdu)
 
@@ -288,9 +313,11 @@ class ScriptedSocket:
         if not self.pending:
             self.s.did(tid, 'tmo')
             raise socket.timeout('timed out')
-        serial, d = self.pending.pop(0)
-        if d[3] == 6:
+        serial, d, kind = self.pending.pop(0)
+        if kind == 'pong':
             self.wire.append(('arx', tid, serial))
+        elif kind == 'ack':
+            self.wire.append(('krx', tid, serial))
         else:
             p = d[14:]
             self.wire.append(('rx', tid, serial, {'seq': p[4] >> 2, 'netfn': p[1] >> 2, 'cmd': p[5]}))
@@ -548,7 +575,13 @@ def _run(cfg, fine, s, R, SESS, Session, Target, create_request_by_name):
                     except BaseException as e:   # the real keep-alive thread would die here
                         out.append(exc_entry(e))
                 else:
-                    target = Target(spec.get('target', 0x20))
+                    rt = spec.get('routing', 0)
+                    if rt:
+                        # bridged through Send Message: depth 1 (BMC -> IPMB-0) or 2 (BMC -> carrier -> module)
+                        target = Target(routing=[(0x81, 0x20, 0), (0x20, 0x82, None)] if rt == 1 else
+                                        [(0x81, 0x20, 0), (0x20, 0x82, 7), (0x20, 0x72, None)])
+                    else:
+                        target = Target(spec.get('target', 0x20))
                     for k, (netfn, cmd) in enumerate(reqs):
                         try:
                             if kind == 'raw':
@@ -584,9 +617,11 @@ def _run(cfg, fine, s, R, SESS, Session, Target, create_request_by_name):
         if ev[0] == 'tx':
             p = ev[3]
             wire.append(['tx', ev[1], ev[2], p['sseq'], p['seq'], p['netfn'], p['cmd'], ev[4],
-                         {k: p[k] for k in ('auth', 'raw_seq', 'raw_sid', 'authcode', 'msg')}])
+                         {k: p[k] for k in ('auth', 'raw_seq', 'raw_sid', 'authcode', 'msg', 'depth')}])
         elif ev[0] == 'rx':
             wire.append(['rx', ev[1], ev[3]['seq'], ev[3]['netfn'], ev[3]['cmd'], ev[2]])
+        elif ev[0] == 'krx':        # acknowledge of a Send Message wrapper of datagram n read
+            wire.append(['krx', ev[1], ev[2]])
         elif ev[0] == 'atx':        # ASF ping sent: thread, request index, datagram number
             wire.append(['atx', ev[1], ev[2], ev[3]])
         else:                       # ASF pong read: thread, number of the datagram it answers
@@ -602,6 +637,7 @@ def _run(cfg, fine, s, R, SESS, Session, Target, create_request_by_name):
         'lock_owner': next((l.owner for l in s.locks if l.owner is not None), None),
         'locks_used': sum(1 for l in s.locks if getattr(l, 'used', False)),
         'unlocked_session_accesses': len(unlocked),
+        'unread': [[x[0], x[2]] for x in sock.pending],
         'keepalive_job': getattr(bind_job(intf)[0], '__name__', '?'),
         'final_nsn': intf.__dict__.get('_c14_nsn'),
         'final_sseq': sess.__dict__.get('_c14_sq'),
